@@ -102,7 +102,8 @@ def run(ctx):
         ctx.count(f"stream={tag}"); ctx.count(f"m={m}")
         a = ans[i]["ok"]
         thr_exact = None if k is None else F(k) * F(math.sqrt(2 * m)) + m   # only used for the distance filter
-        exactly_repr = k is not None and m in (2, 8, 18)
+        # threshold exactly representable in binary64: sqrt(2m) an integer AND k*sqrt(2m)+m incurs no rounding
+        exactly_repr = k is not None and m in (2, 8, 18) and F(k) * math.isqrt(2 * m) + m == F(k * math.sqrt(2 * m) + m)
         far = k is None or abs(float(nis) - float(thr_exact)) > 1e-9 * (1 + abs(float(thr_exact)))
         expected_float = a["float"]["decision"]
         impls = {}
@@ -129,9 +130,15 @@ def run(ctx):
     # filter stream: rejections through sensor_model leave everything untouched
     nf = 6 if ctx.quick else 60
     for i in range(nf):
-        d = gen.gen_definition(ctx.rng, n_state=ctx.rng.choice([2, 3]), n_control=0, n_calib=0, n_sensors=1, depth=2)
+        d = gen.gen_definition(ctx.rng, n_state=ctx.rng.choice([2, 3]), n_control=0, n_calib=0, n_sensors=2, depth=2)
         if not eh.is_rational(d):
             continue
+        # sensors of DIFFERENT reading dimension on the same filter object (1 and 2 readings)
+        ks = sorted(d.sensors)
+        d.sensors[ks[0]] = dict(list(d.sensors[ks[0]].items())[:1])
+        while len(d.sensors[ks[1]]) < 2:
+            d.sensors[ks[1]][gen.fresh_names(ctx.rng, 1, {x.name for x in d.all_symbols()} | set(d.sensors[ks[1]]))[0]] = d.state[0] * 3 + 1
+        d.sensors[ks[1]] = dict(list(d.sensors[ks[1]].items())[:2])
         process, sensor = eh.make_noises(ctx.rng, d)
         k = ctx.rng.choice([0.5, 1.5, 5.0, None])
         try:
@@ -139,9 +146,10 @@ def run(ctx):
         except Exception as e:
             ctx.fail(f"compile-ekf-raises:{fk.exc_kind(e)}", f"compile_ekf refuses a valid definition: {e!r}"[:300], {"def": d.describe()})
             continue
-        key, rd = next(iter(d.sensors.items()))
         Ls = sorted(s.name for s in d.state)
-        for _ in range(4):
+        for rep in range(6):
+            key = sorted(d.sensors)[rep % 2]      # alternate between the two sensors
+            rd = d.sensors[key]
             pt = gen.gen_point(ctx.rng, d)
             sub = eh.subs_map(d, pt)
             P = eh.spd(ctx.rng, len(Ls))
